@@ -24,7 +24,7 @@ def sh(cmd, cwd=None, env=None, timeout=900):
 
 
 def build_demo(src, demo, out, workdir):
-    flags = "-g -O1 -fsanitize=address,undefined -fno-omit-frame-pointer -w"
+    flags = "-g %s -fsanitize=address,undefined -fno-omit-frame-pointer -w" % os.environ.get("SEED_OPT", "-O1")
     txt = open(demo).read()
     extra = ""
     for w in re.findall(r"--wrap=(\w+)", txt):
